@@ -446,6 +446,21 @@ func gen(r *vgen.Rng, tier string) []Case {
 		all := append(btcScriptDeps(r, btcScriptShapes(r)), btcScriptDeps(r, btcOpcodeSweep(r))...)
 		out = append(out, btcSweepCases(r, all, per)...)
 	}
+	// 0b. calldata ending exactly at every field boundary, one byte short / long, and consistent deposits
+	// with each variable-length field empty (bounds.go), packed into ranges; 0c. the concurrent cases
+	// (conc.go): one range per chain kind (thorough: three)
+	for i, p := range paths {
+		per := 8
+		if thoroughTier {
+			per = 3
+		}
+		out = append(out, boundaryCases(r, p.name, p.chain, per)...)
+		if i < 3 {
+			for k, n := 0, map[bool]int{false: 1, true: 3}[thoroughTier]; k < n; k++ {
+				out = append(out, concCase(r, p.name, p.chain))
+			}
+		}
+	}
 	for _, p := range paths {
 		retry := p.name == "EvmRetryV1" || p.name == "SubRetry"
 		// 1. every poison at every position among three healthy neighbours
@@ -545,6 +560,7 @@ func gen(r *vgen.Rng, tier string) []Case {
 	for i := range out {
 		out[i] = normalise(out[i])
 	}
+	prefetch(out)
 	return out
 }
 
